@@ -51,6 +51,8 @@ class Run:
         self.fps = []               # (prop, class, cause, id)
         self.assumptions = []
         self.vh = None
+        self.fam = ""             # family tag attached to fingerprints found by validate_obs
+        self.scen_files = {}        # family -> scenario file (for replay bundles)
 
     # ------------------------------------------------------------------ builds
     def build_harness(self):
@@ -155,7 +157,7 @@ class Run:
             for line in out.splitlines():
                 m = self.FP.match(line.strip())
                 if m:
-                    self.fps.append((m.group(1), m.group(2), m.group(3), int(m.group(4))))
+                    self.fps.append((m.group(1), m.group(2), m.group(3), int(m.group(4)), self.fam))
         self.validated += n
         return n
 
@@ -207,14 +209,14 @@ class Run:
                     ks.append(m.groups())
         return ks
 
-    def finish(self, rule, evaluations, distinct_nontrivial, exhaustive=True, records_of=None, replay_writer=None):
+    def finish(self, rule, evaluations, distinct_nontrivial, exhaustive=True, replay_writer=None):
         """Classify fingerprints of this property, write evidence, print the verdict lines, return the exit code."""
         mine = [f for f in self.fps if f[0] == self.prop]
         others = sorted({(f[0], f[1], f[2]) for f in self.fps if f[0] != self.prop})
         known = self.known()
         groups = {}
         for f in mine:
-            groups.setdefault((f[1], f[2]), []).append(f[3])
+            groups.setdefault((f[1], f[2]), []).append((f[4], f[3]))
         violations = 0
         known_hits = []
         for (cls, cause), ids in sorted(groups.items()):
@@ -224,9 +226,9 @@ class Run:
                 log("KNOWN-FINDING: property=%s class=%s cause=%s occurrences=%d %s" % (self.prop, cls, cause, len(ids), k[0][3]))
                 continue
             violations += 1
-            path = self.write_replay(cls, cause, ids, replay_writer)
+            path = self.write_replay(cls, cause, ids)
             log("VIOLATION property=%s replay=%s" % (self.prop, path))
-            log("  class=%s cause=%s occurrences=%d first ids=%s" % (cls, cause, len(ids), ids[:5]))
+            log("  class=%s cause=%s occurrences=%d first=%s" % (cls, cause, len(ids), ids[:5]))
         ev = {
             "property_id": self.prop, "tier": self.tier, "seed": self.seed, "level": "model_checking",
             "coverage": {
@@ -251,15 +253,23 @@ class Run:
             "FAIL" if violations else "PASS", self.prop, self.tier, self.seed, self.states, self.validated, evaluations, distinct_nontrivial, time.time() - self.t0))
         return 1 if violations else 0
 
-    def write_replay(self, cls, cause, ids, writer):
+    def write_replay(self, cls, cause, ids):
         h = hashlib.sha1(("%s|%s|%s|%s" % (self.prop, cls, cause, ids[:3])).encode()).hexdigest()[:12]
         d = os.path.join(VERIF, "replays", self.prop, h)
         os.makedirs(d, exist_ok=True)
         meta = {"property": self.prop, "class": cls, "cause": cause, "ids": ids[:50], "tier": self.tier, "seed": self.seed}
         with open(os.path.join(d, "meta.json"), "w") as fh:
             json.dump(meta, fh, indent=1)
-        if writer:
-            writer(d, ids[:50])
+        # the scenarios of the first offending records, per family, so that --replay can re-run exactly them
+        for fam, scen in self.scen_files.items():
+            want = sorted({i for (f, i) in ids[:50] if f == fam})
+            if not want or not os.path.exists(scen):
+                continue
+            wset = set(want)
+            with open(os.path.join(d, "scen-%s.ndjson" % fam), "w") as out:
+                for i, line in enumerate(open(scen)):
+                    if i in wset:
+                        out.write(line)
         with open(os.path.join(d, "replay.sh"), "w") as fh:
             fh.write("#!/bin/sh\ncd %s && exec ./check %s --replay %s\n" % (VERIF, self.prop, d))
         os.chmod(os.path.join(d, "replay.sh"), 0o755)
